@@ -76,6 +76,8 @@ def _inside_tangelo(exc):
     frames = [f for f in tb]
     # innermost frame that belongs to either tangelo or the harness decides
     for f in reversed(frames):
+        if not os.path.isabs(f.filename):      # e.g. Cython frames "numpy/random/mtrand.pyx": not ours, not tangelo's
+            continue
         fn = os.path.realpath(f.filename)
         if fn.startswith(REPO + os.sep):
             return True, f"{type(exc).__name__}@{os.path.relpath(fn, REPO)}:{f.name}"
